@@ -470,8 +470,8 @@ def cases(tier, seed):
             for kind, form, r in (("cp", "flat", 2), ("cp", "col", 1), ("cp", "row", 3), ("noncp", "pairs", 2), ("noncp", "choi", 1), ("noncp", "choi-arbitrary", 0)):
                 if form == "row" and not (thorough or (din, dout) == (2, 2)):
                     continue
-                if (len(before) + len(after) == 2 and din * dout >= 6) and form in ("row",):
-                    continue
+                if (before, after) == ([2], [2]) and din * dout >= 6 and not thorough and form not in ("pairs", "choi-arbitrary"):
+                    continue  # quick tier: 12x12 symbolic operands only in the two most general forms
                 pos = "pos%d-of-%d" % (len(before) + 1, len(before) + len(after) + 1)
                 add("partial.kron", dict(before=before, after=after, din=din, dout=dout, r=r, kind=kind, form=form, entries="sym", seed=seed, dimform="list"), "partial_channel/%s/%s/%s/sym" % (form, pos, dk(din, dout)))
     # rectangular operand (two-row dim) and omitted dim
